@@ -50,6 +50,10 @@ class BudgetExceeded(BaseException):
     pass
 
 
+class Inconsistent(BaseException):
+    """Raised by a reader routine of the harness: data was yielded without an error but is not self-consistent."""
+
+
 class Budget:
     """Counts Python call events; raises BudgetExceeded past the limit (termination without the wall clock)."""
 
@@ -646,6 +650,29 @@ def reader_seeds(ctx):
         finally:
             p.close()
 
+    def read_pack_through_store(dirp):
+        """The level at which dulwich promises self-consistency: whatever an object store hands out under a name hashes
+        to that name (Pack.get_raw alone, like git's low-level readers, does not re-hash)."""
+        from dulwich.object_store import DiskObjectStore
+
+        od = os.path.join(dirp, "objects")
+        os.makedirs(os.path.join(od, "pack"))
+        os.makedirs(os.path.join(od, "info"))
+        for ext in (".pack", ".idx"):
+            shutil.copyfile(os.path.join(dirp, "p" + ext), os.path.join(od, "pack", "pack-" + "0" * 40 + ext))
+        store = DiskObjectStore(od)
+        try:
+            for sha in list(store):
+                try:
+                    o = store[sha]
+                except Exception:
+                    continue  # refusing is fine
+                raw = o.as_raw_string()
+                if packfmt.obj_id(o.type_name, raw).hex().encode() != sha:
+                    raise Inconsistent(f"store[{sha!r}] returns a {o.type_name!r} that does not hash to that name")
+        finally:
+            store.close()
+
     def read_idx(dirp):
         idx = load_pack_index(os.path.join(dirp, "p.idx"), DEFAULT_OBJECT_FORMAT)
         try:
@@ -662,6 +689,8 @@ def reader_seeds(ctx):
 
     out["pack(data damaged)"] = ({"p.pack": pack_bytes, "p.idx": idx2}, "p.pack", read_pack)
     out["pack(idx v2 damaged)"] = ({"p.pack": pack_bytes, "p.idx": idx2}, "p.idx", read_pack)
+    out["store(idx v2 damaged)"] = ({"p.pack": pack_bytes, "p.idx": idx2}, "p.idx", read_pack_through_store)
+    out["store(pack data damaged)"] = ({"p.pack": pack_bytes, "p.idx": idx2}, "p.pack", read_pack_through_store)
     out["idx v2"] = ({"p.idx": idx2}, "p.idx", read_idx)
     out["idx v1"] = ({"p.idx": idx1}, "p.idx", read_idx)
 
@@ -770,6 +799,9 @@ def judge_reader(ctx, work, rname, files, target, reader, mname, mutated, limit,
         except BudgetExceeded:
             ctx.fail(f"C04:reader:{rname}:call-budget-exceeded", f"{rname} on {mname}: more than {limit} Python calls", check, case)
             return "budget"
+        except Inconsistent as e:
+            ctx.fail(f"C04:reader:{rname}:object-under-wrong-name", f"{rname} on {mname}: {e}", check, case)
+            return "inconsistent"
         except (MemoryError, RecursionError) as e:
             ctx.fail(f"C04:reader:{rname}:{type(e).__name__}", f"{rname} on {mname}: {type(e).__name__}", check, case)
             return "resource"
